@@ -32,9 +32,31 @@ def do_case(case):
             before = S.atoms_state(at)
             err = None
             clusters = None
+            sbc = S.SBC()
+            if case["id"] % 2 == 1:
+                # history (no effect on what is expected): this SBC object has clustered THE SAME Atoms object before, while it
+                # held the same structure in another atom order; the object was then restored in place
+                import random as _random
+                r_ = _random.Random(case["id"])
+                pos0, num0 = at.get_positions().copy(), at.get_atomic_numbers().copy()
+                order = list(range(len(at)))
+                r_.shuffle(order)
+                at.set_positions(pos0[order])
+                at.set_atomic_numbers(num0[order])
+                try:
+                    with time_limit(case.get("time_limit", 300)):
+                        sbc.get_clusters(at, seed=int(case.get("seed", 7)))
+                except CaseTimeout:
+                    raise
+                except Exception:
+                    pass
+                at.set_positions(pos0)
+                at.set_atomic_numbers(num0)
+                out["history"] = "same SBC object, same Atoms object in another atom order first, restored in place"
+                before = S.atoms_state(at)
             with S.patched_sbc(rec, S.make_logging_finder(rec)):
                 try:
-                    clusters = S.SBC().get_clusters(at, seed=int(case.get("seed", 7)))   # every other parameter: default
+                    clusters = sbc.get_clusters(at, seed=int(case.get("seed", 7)))   # every other parameter: default
                 except CaseTimeout:
                     raise
                 except Exception as e:
